@@ -87,17 +87,11 @@ func fopText(s string) *lt { return ls("FT.opaque", s) }
 
 // integer constants of the package, resolved through other constants
 func (c *ectx) intConst(name string, depth int) (int, bool) {
-	if depth > 5 {
+	v, ok := intConstExpr(c.files, ast.NewIdent(name), depth)
+	if !ok || v < -1<<31 || v > 1<<31 {
 		return 0, false
 	}
-	v := valueOf(c.files, name)
-	if n, err := strconv.Atoi(v); err == nil {
-		return n, true
-	}
-	if v != "?missing" && token.IsIdentifier(v) {
-		return c.intConst(v, depth+1)
-	}
-	return 0, false
+	return int(v), true
 }
 
 func unsignedModulus(t string) int {
